@@ -2,6 +2,7 @@ package rules
 
 import (
 	"fmt"
+	"go/ast"
 	"go/types"
 	"os"
 	"strings"
@@ -18,6 +19,7 @@ func init() { register("C19", c19) }
 // parameters of the exported validation entry points (everything derived by element access,
 // conversion, formatting); sinks are all stores into SchemaError.Reason.
 func c19(r *core.Report) {
+	c19SettingsCopy(r)
 	p := r.Prog
 	p.BuildSSA()
 	r.Assumption("user-registered format validators and custom regex compilers are outside the repository: their error text is copied into Reason by err.Error(); the repo cannot constrain them")
@@ -131,5 +133,79 @@ func c19(r *core.Report) {
 		r.Extra["sources"] = nsrc
 		r.Extra["reason_stores"] = nStores
 		r.Extra["tainted_fields"] = t.FieldTaints()
+	})
+}
+
+// c19SettingsCopy: the message customiser (and every other per-call setting) follows every copy of
+// the settings.
+func c19SettingsCopy(r *core.Report) {
+	p := r.Prog
+	info := p.Pkg("openapi3").TypesInfo
+	r.RunRule("C19.settingscopy", "a derived settings object keeps the caller's message customiser: wherever package openapi3 builds a schemaValidationSettings from another one (a composite literal at least three of whose fields are read from an existing settings value), every field of the struct other than the sync.Once is given — a copy that leaves customizeMessageError out makes the errors produced under it fall back to the default text, which quotes the rejected value", 0, func() {
+		st := p.NamedType("openapi3", "schemaValidationSettings")
+		sst := st.Underlying().(*types.Struct)
+		n := 0
+		for _, d := range p.AllDecls("openapi3") {
+			perFn := 0
+			ast.Inspect(d.Body, func(nd ast.Node) bool {
+				cl, ok := nd.(*ast.CompositeLit)
+				if !ok || core.NamedOf(info.TypeOf(cl)) != st {
+					return true
+				}
+				given := map[string]bool{}
+				fromSettings := 0
+				for _, e := range cl.Elts {
+					kv, ok := e.(*ast.KeyValueExpr)
+					if !ok {
+						continue
+					}
+					if id, ok := kv.Key.(*ast.Ident); ok {
+						given[id.Name] = true
+					}
+					if sel, ok := ast.Unparen(kv.Value).(*ast.SelectorExpr); ok {
+						if core.NamedOf(info.TypeOf(sel.X)) == st {
+							fromSettings++
+						}
+					}
+				}
+				if fromSettings < 3 {
+					return true
+				}
+				n++
+				perFn++
+				key := fmt.Sprintf("settingscopy:%s#%d", core.FuncName(d), perFn)
+				// fields assigned right after on the holder count as given
+				var missing []string
+				for i := 0; i < sst.NumFields(); i++ {
+					f := sst.Field(i)
+					if nn := core.NamedOf(f.Type()); nn != nil && nn.Obj().Pkg() != nil && nn.Obj().Pkg().Path() == "sync" {
+						continue
+					}
+					if given[f.Name()] {
+						continue
+					}
+					// assigned later in the function on some variable of this type
+					later := false
+					ast.Inspect(d.Body, func(m ast.Node) bool {
+						if as, ok := m.(*ast.AssignStmt); ok && as.Pos() > cl.Pos() {
+							for _, l := range as.Lhs {
+								if sel, ok := ast.Unparen(l).(*ast.SelectorExpr); ok && sel.Sel.Name == f.Name() && core.NamedOf(info.TypeOf(sel.X)) == st {
+									later = true
+								}
+							}
+						}
+						return true
+					})
+					if !later {
+						missing = append(missing, f.Name())
+					}
+				}
+				r.Check(len(missing) == 0, key, p.Pos(cl.Pos()), "every setting is carried over", fmt.Sprintf("%s derives settings from existing ones without %s: validation under the derived settings ignores what the caller configured (without customizeMessageError the default error text, with the value dump, comes back)", core.FuncName(d), strings.Join(missing, ", ")))
+				return true
+			})
+		}
+		if n == 0 {
+			r.Trivial("settingscopy:none", "-", "settings are never copied: every nested visit receives the caller's settings object itself")
+		}
 	})
 }
